@@ -29,10 +29,15 @@ def run(tier, replay):
                           "--worlds-out", rw, "--cases-out", rc])
         trace2 = S.serve(rw, rc, sc, obs="hi", stats=True, tag="r")
         tv2 = S.judge("C01", "Trace_Static_c01", trace2, verdict, signature)
+        wcases = sc.path("wire_cases.ndjson")
+        S.sample_cases(cases, wcases, every=1 if tier == "thorough" else 7)
+        trace3 = S.serve(worlds, wcases, sc, obs="hi", stats=False, tag="w", wire=True)
+        tv3 = S.judge("C01", "Trace_Static_c01", trace3, verdict, signature)
         n1, n2 = S.count_events(trace), S.count_events(trace2)
+        n3 = S.count_events(trace3)
         ev["coverage"] = {
             "states": mc.distinct + gen.distinct, "transitions": mc.generated + gen.generated,
-            "traces_validated_against_impl": n1["Serve"] + n2["Serve"],
+            "traces_validated_against_impl": n1["Serve"] + n2["Serve"] + n3["Serve"], "wire_requests": n3["Serve"],
             "spec_cases_replayed": ncases, "random_world_requests": n2["Serve"],
             "fs_model_checks_against_os": n1["Stat"] + n2["Stat"],
             "worlds": n1["Mount"] + n2["Mount"],
